@@ -133,6 +133,9 @@ def fresh_like(ip, v, name, shape=None):
         return None
     if isinstance(v, (SObj, SList, SFunc, SBound, str)) or callable(v):
         return v
+    from .values import Undefined as _Undef
+    if isinstance(v, _Undef) and getattr(v, 'leftover', None):
+        return v      # a leftover field of a long-used object stays unknown (reading it is still refused)
     raise EngineError(f'cannot havoc value of shape {v!r} ({name}); give a type in the loop contract')
 
 
